@@ -13,7 +13,7 @@
 //!        (the flat graph is not observable through `generate_embedded`; it is rebuilt from a deep
 //!        clone of the very same IR with the public `compile_network` / `emit` / `build` steps that
 //!        `compile_internal` performs, and P2 = P shows that the rebuilt graph is the emitted one).
-//!   progc det <abs-out.ndjson> <proc-tag> <runs> <all|all+|p1,..>
+//!   progc det <abs-out.ndjson> <proc-tag> <runs> <all|all+|p1,..> [withbuild]
 //!        every program compiled <runs> times in this process: hashes of the per-location
 //!        meta-graph JSON and of the emitted Rust text -> rows for Determinism.tla
 //!   progc show <prog>      print the emitted code of one program (replay aid)
@@ -361,6 +361,11 @@ fn cmd_prod(args: &[String]) {
     println!("{}", json!({"programs": progs.len(), "ok": n_ok, "graphs": n_graphs}));
 }
 
+/// the first 200 characters of a panic message (what is compared across runs)
+fn head(msg: &str) -> String {
+    msg.chars().take(200).collect()
+}
+
 fn cmd_det(args: &[String]) {
     let mut tr = Trace::create(&args[0]);
     let proc_tag = &args[1];
@@ -369,13 +374,27 @@ fn cmd_det(args: &[String]) {
     let _ballast: Vec<Vec<u8>> = (0..(tagn % 97 + 5)).map(|i| vec![0u8; 1000 + 13 * i]).collect();
     let progs = select(&args[3]);
     let mut n = 0;
+    // the build script of this crate was one more process that ran the generator: its hashes
+    if args.get(4).is_some_and(|s| s == "withbuild") {
+        let build_log: Vec<Value> = serde_json::from_str(hv_prog_embedded::BUILD_LOG).unwrap();
+        for (name, _expect) in &progs {
+            if let Some(b) = build_log.iter().find(|b| b["prog"] == json!(name)) {
+                let ok = b["verdict"] == json!("ok");
+                let msg = b["msg"].as_str().unwrap_or("");
+                tr.ev(json!({"e":"compile","input":format!("hydro/{name}/file"),"proc":"build-script","run":1,
+                    "stage": if ok { "done".to_string() } else { format!("panic:{}", fnv_hex(&head(msg))) },
+                    "verdict": if ok { "ok" } else { "panic" }, "graph": "", "code": b["code"], "glen": 0, "clen": b["clen"]}));
+                n += 1;
+            }
+        }
+    }
     for (name, _expect) in &progs {
         for run_no in 1..=runs {
             let (verdict, msg, run) = compile(name, false);
             // one row for the whole emitted file ...
             tr.ev(json!({"e":"compile","input":format!("hydro/{name}/file"),"proc":proc_tag,"run":run_no,
-                "stage": if verdict == "ok" { "done".to_string() } else { format!("{verdict}:{}", fnv_hex(&msg)) },
-                "verdict": verdict, "graph": "", "code": run.code.as_deref().map(fnv_hex).unwrap_or_default(),
+                "stage": if verdict == "ok" { "done".to_string() } else { format!("panic:{}", fnv_hex(&head(&msg))) },
+                "verdict": if verdict == "ok" { "ok" } else { "panic" }, "graph": "", "code": run.code.as_deref().map(fnv_hex).unwrap_or_default(),
                 "glen": 0, "clen": run.code.as_ref().map(|c| c.len()).unwrap_or(0)}));
             n += 1;
             // ... and one per location: partitioned graph JSON + the function's text
